@@ -399,6 +399,8 @@ def r05c(ctx):
     rs = [(b, si, e) for (b, si, kk, e) in k.ret_sites()]
     ok = len(hm) == 1 and bool(ne) and k.cfg.must_pass(hm[0], via_edges=ne) and flow.mentions(k.arg(hm[0], 1), lambda z: z[0] == 'field' and z[2] == 'chunk_hash_hmac_key')
     ctx.check(ok, 'R05c', KEYED, 'hmac', k.loc(hm[0]) if hm else '-', 'keyed_chunk_hash applies hmac(chunk_hash, shard key) on the non-default-key edge')
+    # (the returned value may pass through a variable: expand it into its assignments)
+    rs = [(sb if sb is not None else b, ssi if sb is not None else si, se) for (b, si, e) in rs for (sb, ssi, se) in k.flow.sources(e, (b, si))]
     unkeyed = [(b, si) for (b, si, e) in rs if not (hm and k.rooted_at(e, hm[0]))]
     ctx.check(bool(eq) and all(k.cfg.must_pass(b, via_edges=eq) for (b, si) in unkeyed) and len(rs) == 2, 'R05c', KEYED, 'unkeyed only when default', '-', 'the unkeyed hash is returned only on the default-key edge',
               'keyed_chunk_hash can return the unkeyed hash for a keyed shard')
